@@ -353,7 +353,40 @@ def directed():
                                               where=g.cmp('<=', g.column('A', 'y'), g.lit(0))), 'nq'),
                        'inner', g.cmp('==', g.column('A', 'x'), g.column('nq', 'x'))),
                 select=(g.column('A', 'x'), g.column('nq', 'y')), where=g.cmp('>', g.column('A', 'y'), g.lit(0))),
-    ] + nested_outer_joins() + referenced_joins()
+    ] + nested_outer_joins() + referenced_joins() + negated_conjunctions()
+
+
+def negated_conjunctions():
+    """NOT over a conjunction / disjunction of which only some operands are about one table (the others compare across
+    tables, or are about the other table): ``NOT (p_A AND q)`` = ``NOT p_A OR NOT q`` filters no table on its own."""
+    from vlib import dslgen as g
+
+    a, b, c = g.table('A'), g.table('B'), g.table('C')
+    eq = g.cmp('==', g.column('A', 'x'), g.column('B', 'x'))
+    single = {
+        'A': [g.cmp('>', g.column('A', 'y'), g.lit(0)), g.isnull(g.column('A', 's'))],
+        'B': [g.cmp('>', g.column('B', 'w'), g.lit(10)), g.isnull(g.column('B', 't'))],
+    }
+    across = [g.cmp('<', g.column('A', 'y'), g.column('B', 'w')), g.cmp('!=', g.column('A', 'x'), g.column('B', 'x'))]
+    select = (g.column('A', 'x'), g.column('A', 'y'), g.column('B', 'w'))
+    out = []
+    for table, options in single.items():
+        other = single['B' if table == 'A' else 'A'][0]
+        for own in options:
+            for second in across + [other]:
+                for build in (g.and_, g.or_):
+                    for pair in ((own, second), (second, own)):
+                        negated = g.not_(build(*pair))
+                        out.append(g.query(g.join(a, b, 'inner', eq), select=select, where=negated))
+                        out.append(g.query(g.join(a, b, 'inner', negated), select=select))
+                        out.append(g.query(g.join(a, b, 'left', negated), select=select))
+                        out.append(g.query(g.join(a, b, 'inner', eq), select=select,
+                                           where=g.and_(g.cmp('>', g.column('B', 'x'), g.lit(0)), negated)))
+    third = g.cmp('<', g.column('A', 'x'), g.column('C', 'k'))
+    for own in (g.cmp('>', g.column('C', 'v'), g.lit(0.5, 'float')), single['A'][0]):
+        out.append(g.query(g.join(g.join(a, b, 'inner', eq), c, 'inner', g.cmp('==', g.column('B', 'x'), g.column('C', 'k'))),
+                           select=select + (g.column('C', 'k'),), where=g.not_(g.and_(own, third))))
+    return out
 
 
 def referenced_joins():
